@@ -167,6 +167,16 @@ impl WorldA {
                         &format!("{}/{}", super::model::kind_name(c.cfg.kind), cause),
                         format!("conn {} side {} channel {} max {}", i, side, channel_id, c.cfg.max_mem),
                     );
+                    if c.cfg.kind == REL_UNORD {
+                        // C02 has no "unless disconnected" clause: loss and duplication alone must not cost an unordered channel
+                        // its messages, and a receiver that gives up within budget does exactly that
+                        obs.violate(
+                            "C02",
+                            "messages-lost-to-spurious-disconnect",
+                            cause,
+                            format!("conn {} side {} channel {} max {}", i, side, channel_id, c.cfg.max_mem),
+                        );
+                    }
                 }
             },
             SendChannelError { channel_id, .. } => {
@@ -1014,6 +1024,41 @@ impl WorldA {
                 let mut o = super::model::octets_shim::OctetsMut::with_slice(&mut buf);
                 if let Ok(len) = pkt.to_bytes(&mut o) {
                     obs.count("fault.forge_consistent_slice");
+                    let b = buf[..len].to_vec();
+                    self.deliver_bytes(i, d, &b, false, obs);
+                }
+            }
+            K_FORGECLASH => {
+                // a hostile peer that breaks id discipline on a reliable channel: one of a few message ids just above the cursor
+                // is used for a small message and for sliced messages of changing slice counts, in any order
+                let i = op.a as usize % ncl;
+                let d = (op.b % 2) as usize;
+                let n = self.nchan(i, d);
+                if n == 0 {
+                    return;
+                }
+                let ch = (op.c % 7) as usize % n;
+                let c = &self.conns[i].st[d][ch];
+                if !c.reliable() {
+                    return;
+                }
+                let cid = c.cfg.id;
+                let base = c.base_id + c.msgs.len() as u64;
+                let mid = base + (op.c / 7) % 4;
+                let sequence = 2_000_000 + op.d % 100_000;
+                let pkt = if (op.c / 28) % 3 == 0 {
+                    let len = [1usize, 600, 1200][(op.d % 3) as usize];
+                    Packet::SmallReliable { sequence, channel_id: cid, messages: vec![(mid, vec![0xDDu8; len].into())] }
+                } else {
+                    let nsl = 2 + (op.d % 6) as usize;
+                    let idx = ((op.d / 6) % nsl as u64) as usize;
+                    let plen = if idx == nsl - 1 { [1usize, 600, 1200][((op.d / 36) % 3) as usize] } else { SLICE };
+                    Packet::ReliableSlice { sequence, channel_id: cid, slice: Slice { message_id: mid, slice_index: idx, num_slices: nsl, payload: vec![0xDDu8; plen].into() } }
+                };
+                let mut buf = [0u8; 1500];
+                let mut o = super::model::octets_shim::OctetsMut::with_slice(&mut buf);
+                if let Ok(len) = pkt.to_bytes(&mut o) {
+                    obs.count("fault.forge_id_clash");
                     let b = buf[..len].to_vec();
                     self.deliver_bytes(i, d, &b, false, obs);
                 }
